@@ -34,9 +34,11 @@ type (
 
 var ErrClosed = net.ErrClosed
 
-func SplitHostPort(hostport string) (host, port string, err error) { return net.SplitHostPort(hostport) }
-func JoinHostPort(host, port string) string                       { return net.JoinHostPort(host, port) }
-func ParseIP(s string) net.IP                                      { return net.ParseIP(s) }
+func SplitHostPort(hostport string) (host, port string, err error) {
+	return net.SplitHostPort(hostport)
+}
+func JoinHostPort(host, port string) string { return net.JoinHostPort(host, port) }
+func ParseIP(s string) net.IP               { return net.ParseIP(s) }
 
 type addr string
 
